@@ -84,8 +84,12 @@ pub fn run(tier: &str) -> Result<Report, String> {
         selected.push(Arc::new(b.restrict_colours(&keep)));
     }
     // plus networks with multi-stability inside one colour (steady state next to a cyclic attractor)
-    for b in edge_nets(3)?.into_iter().filter(|b| ["mul3", "mul2"].contains(&b.name.as_str())) {
+    for b in edge_nets(3)?.into_iter().filter(|b| ["mul3", "mul2", "cst2"].contains(&b.name.as_str())) {
         selected.push(b);
+    }
+    // variables WITHOUT regulators that still move once (a constant update function, a zero-arity parameter) next to an oscillation
+    for (name, text) in [("src2", "b -| b; $a: true; $b: !b"), ("srp2", "b -| b; $a: k; $b: !b")].into_iter().chain(if tier == "quick" { vec![] } else { vec![("src3", "c -| b; b -> c; $a: false; $b: !c; $c: b")] }) {
+        selected.push(Arc::new(super::common::bind(name, &crate::nets::spec(text), 3)?));
     }
     for b in selected.iter() {
         sem::note_network(&mut rep, b);
